@@ -15,11 +15,21 @@ def factorJ (f : Factor) : Json := Json.mkObj [("x", Json.str f.expr), ("m", Jso
 def termOf (j : Json) : Model.Term := (asArr j).map factorOf
 def termJ (t : Model.Term) : Json := jlist (t.map factorJ)
 
-/-- request: {"terms": [[{x,m}...]...], "wrt": [..]} → differentiated term list -/
+def diffJ (f : List Model.Term) (wrt : List String) : Json :=
+  match differentiateFormula f wrt with
+  | .error _ => jerr "RuntimeError"
+  | .ok ts => jlist (ts.map termJ)
+
+/-- request: {"terms": [[{x,m}...]...], "wrt": [..], optional "terms2": …} → differentiated term list(s).
+`terms2` is the term list of the same formula object after in-place edits (the model is a pure
+function, so a second call is just another application) -/
 def handle (j : Json) : Json :=
   let f := (jarr j "terms").map termOf
   match differentiateFormula f (strs j "wrt") with
   | .error _ => jerr "RuntimeError"
-  | .ok ts => Json.mkObj [("terms", jlist (ts.map termJ))]
+  | .ok ts =>
+    match jval j "terms2" with
+    | .arr a => Json.mkObj [("terms", jlist (ts.map termJ)), ("terms2", diffJ (a.toList.map termOf) (strs j "wrt"))]
+    | _ => Json.mkObj [("terms", jlist (ts.map termJ))]
 
 end FormulaicVerif.Engines.C20
